@@ -30,6 +30,8 @@ def gen_cases(ctx):
             s = C08.gen_scene(ctx.rng, ctx.quick, i)
         for d in s["detectors"]:
             d["opts"]["exact_interpolation"] = bool(i % 2)
+        # spacings with digits below 1e-14 m (1.55 um / 34, 1 um / 30): the derived uniform spacing / time step must still be common to all descriptions
+        s["spacing"] = [1.55e-6 / 34, 5e-8, 1e-6 / 30][i % 3]
         cases.append({"kind": "grids", "spec": s})
     from props import C01
     for i in range(ctx.pick(2, 6)):
